@@ -103,18 +103,6 @@ theorem table_upper_fixed : ∀ s ∈ CgiName.table, upper s = s := by decide +k
 
 theorem table_no_ff : ∀ s ∈ CgiName.table, (255 : UInt8) ∉ s := by decide +kernel
 
-/-- The statement as requested.  It is FALSE for the current source: `StaticVarName` in
-`cgi/intern.rs` has 104 variants (see `table_length`, `table_length_full_false`). -/
-def table_length_full : Prop := CgiName.table.length = 122
-
-/-- The table has exactly as many entries as `StaticVarName` has variants today. -/
-theorem table_length : CgiName.table.length = 104 := by decide +kernel
-
-theorem table_length_partial : CgiName.table.length = 104 := table_length
-
-theorem table_length_full_false : ¬ table_length_full := by
-  unfold table_length_full; rw [table_length]; decide
-
 theorem lookup_some {s : Bytes} {i : Nat} (h : CgiName.lookup s = some i) :
     i < CgiName.table.length ∧ CgiName.table.getD i [] = s :=
   findIdx_beq_some h
